@@ -395,6 +395,12 @@ def b_cmp(op, a, b):
             return ('truthy', lb)
         if (op in ('>=', '==') and _num(a, 0)) or (op == '>' and _num(a, 1)):
             return ('not', ('truthy', lb))
+    if op in ('==', '!=', 'is', 'is not') and a[0] == 'attr' \
+            and b[0] == 'attr' and a[1] == b[1] and a[2].isupper() \
+            and b[2].isupper():
+        # two named constants of one namespace (enum members, flags)
+        same = a[2] == b[2]
+        return ('const', same if op in ('==', 'is') else not same)
     if op in ('==', '!=') and (a[0] == 'ifexp') != (b[0] == 'ifexp'):
         x, c = (a, b) if a[0] == 'ifexp' else (b, a)
         if c[0] in ('num', 'const') and x[2][0] in ('num', 'const') \
@@ -422,8 +428,11 @@ def b_cmp(op, a, b):
         return ('cmp', 'is', a, b)
     if op == 'is not':
         return ('not', ('cmp', 'is', a, b))
+    if op in ('in', 'not in') and b[0] == 'dict' and b[1] and all(
+            x[0] is not None for x in b[1]):
+        b = ('tuple', tuple(x[0] for x in b[1]))    # keys of a literal dict
     if op in ('in', 'not in') and b[0] in ('tuple', 'list', 'set') \
-            and 0 < len(b[1]) <= 8 and all(
+            and 0 < len(b[1]) <= 12 and all(
                 x[0] in ('const', 'num') for x in b[1]):
         # x in ('a', 'b')  ==  x == 'a' or x == 'b'
         alts = tuple(sorted(set(b_cmp('==', a, x) for x in b[1]), key=_sk))
@@ -439,10 +448,28 @@ def b_cmp(op, a, b):
 _BOOLISH = ('cmp', 'not', 'and', 'or', 'truthy', 'exists')
 
 
+def _nonempty_text(k):
+    """A string expression that cannot be empty (contains a non-empty
+    constant piece)."""
+    if k[0] == 'const':
+        return isinstance(k[1], str) and k[1] != ''
+    if k[0] == 'strcat':
+        return _nonempty_text(k[1]) or _nonempty_text(k[2])
+    if k[0] == 'fmt':
+        return bool(re.sub(r'%[-#0 +]*\d*(?:\.\d+)?[a-zA-Z]', '', k[1][1]))
+    return False
+
+
 def as_bool(k):
     """Key in a truth-value context."""
     if isinstance(k, Poly):
         k = k.key()
+    if k[0] == 'call' and k[1][0] == 'attr' and k[1][2] == 'join' \
+            and len(k[2]) == 1 and not k[3] and k[2][0][0] == 'comp' \
+            and _nonempty_text(k[2][0][2]):
+        # ''.join(<non-empty pieces>) is non-empty iff there is a piece
+        return ('truthy', ('comp', 'list') + k[2][0][2:])
+
     if k[0] in _BOOLISH:
         return k
     if k[0] == 'const' and isinstance(k[1], bool):
@@ -650,6 +677,11 @@ class Evaluator(object):
         return ('name', n.id)
 
     def ev_Attribute(self, n, st):
+        tab = getattr(self, '_const_table', None)
+        if tab is not None:
+            d = tab(n)
+            if d is not None:
+                return self.ev(d, st)
         base = self.k(n.value, st)
         hk = (base, n.attr)
         if hk in st.heap:
@@ -1025,11 +1057,19 @@ class Evaluator(object):
             elif a0[0] == 'comp' and a0[1] == 'list' and cname != 'list':
                 args[0] = ('comp', 'gen') + a0[2:]
         if cname == 'dict' and len(args) == 1 and not kws \
-                and args[0][0] == 'comp' and args[0][1] in ('gen', 'list') \
-                and args[0][2][0] == 'tuple' and len(args[0][2][1]) == 2:
+                and args[0][0] == 'comp' and args[0][1] in ('gen', 'list'):
             # dict((k, v) for ...) == {k: v for ...}
-            kk, vv = args[0][2][1]
-            return ('comp', 'dict', ('pair', kk, vv), args[0][3])
+            def as_pair(e):
+                if e[0] == 'tuple' and len(e[1]) == 2:
+                    return ('pair', e[1][0], e[1][1])
+                if e[0] == 'ifexp':
+                    a, b = as_pair(e[2]), as_pair(e[3])
+                    if a is not None and b is not None:
+                        return ('ifexp', e[1], a, b)
+                return None
+            pr = as_pair(args[0][2])
+            if pr is not None:
+                return ('comp', 'dict', pr, args[0][3])
         if fk[0] == 'attr' and fk[2] == 'join' and len(args) == 1 \
                 and not kws and args[0][0] == 'comp' \
                 and args[0][1] == 'list':
@@ -1452,6 +1492,7 @@ class Summarizer(Evaluator):
         self.loop_assigned = []
         self.local_defs = {}
         self.carried_lists = set()
+        self._tables = {}
 
     def summarize(self, func, env=None):
         st = State(env=dict(env or {}))
@@ -1474,8 +1515,47 @@ class Summarizer(Evaluator):
         return paths
 
     # returns list of (state, outcome-or-None)
+    def _peephole(self, stmts):
+        """`if k not in d: d[k] = v` followed by `x = d[k]`
+        ==  `x = d.setdefault(k, v)`."""
+        out = []
+        i = 0
+        while i < len(stmts):
+            a = stmts[i]
+            b = stmts[i + 1] if i + 1 < len(stmts) else None
+            if isinstance(a, ast.If) and not a.orelse and len(a.body) == 1 \
+                    and isinstance(a.test, ast.Compare) \
+                    and len(a.test.ops) == 1 and isinstance(
+                        a.test.ops[0], ast.NotIn) and isinstance(
+                        a.body[0], ast.Assign) and len(
+                        a.body[0].targets) == 1 and isinstance(
+                        a.body[0].targets[0], ast.Subscript) \
+                    and isinstance(b, ast.Assign) and len(b.targets) == 1 \
+                    and isinstance(b.targets[0], ast.Name) and isinstance(
+                        b.value, ast.Subscript):
+                t = a.body[0].targets[0]
+                d, k = a.test.comparators[0], a.test.left
+                if ast.dump(t.value) == ast.dump(d) and ast.dump(
+                        t.slice) == ast.dump(k) and ast.dump(
+                        b.value.value) == ast.dump(d) and ast.dump(
+                        b.value.slice) == ast.dump(k):
+                    call = ast.Call(func=ast.Attribute(
+                        value=d, attr='setdefault', ctx=ast.Load()),
+                        args=[k, a.body[0].value], keywords=[])
+                    new = ast.Assign(targets=b.targets, value=call)
+                    ast.copy_location(new, a)
+                    ast.fix_missing_locations(new)
+                    out.append(new)
+                    i += 2
+                    continue
+            out.append(a)
+            i += 1
+        return out
+
     def block(self, stmts, st):
         live = [(st, None)]
+        if len(stmts) > 1:
+            stmts = self._peephole(stmts)
         for stmt in stmts:
             nxt = []
             for s, o in live:
@@ -1503,6 +1583,28 @@ class Summarizer(Evaluator):
                 fake = ast.If(test=ife.test, body=[a], orelse=[b])
                 ast.copy_location(fake, n)
                 return self.st_If(fake, st)
+            tl = _find_expr(hdr, lambda x: isinstance(x, ast.Subscript)
+                            and isinstance(x.ctx, ast.Load)
+                            and not isinstance(x.slice, ast.Constant)
+                            and self._const_table(x.value) is not None)
+            if tl is not None:
+                # TABLE[x] for a literal table: one case per key (what an
+                # elif chain over the same keys spells out), else KeyError
+                d = self._const_table(tl.value)
+                chain = [ast.copy_location(ast.Raise(
+                    exc=ast.Call(func=ast.Name(id='KeyError',
+                                               ctx=ast.Load()),
+                                 args=[], keywords=[]), cause=None), n)]
+                for kk, vv in reversed(list(zip(d.keys, d.values))):
+                    test = ast.Compare(left=tl.slice, ops=[ast.Eq()],
+                                       comparators=[kk])
+                    node_i = ast.If(test=test,
+                                    body=[_replace_node(n, tl, vv)],
+                                    orelse=chain)
+                    ast.copy_location(node_i, n)
+                    ast.fix_missing_locations(node_i)
+                    chain = [node_i]
+                return self.stmt(chain[0], st)
             if self.inline and self.ctx is not None:
                 hit = _find_expr(hdr, lambda x: isinstance(x, ast.Call)
                                  and self._resolve(x) is not None)
@@ -1511,6 +1613,42 @@ class Summarizer(Evaluator):
                     if r is not None:
                         return r
         return m(n, st)
+
+    # -- class/module-level literal tables that nothing writes to -----------
+    def _const_table(self, node):
+        """The ast.Dict bound to `self.NAME` / `cls.NAME` / `Class.NAME` /
+        module-level `NAME` when that binding is a literal dict of constants
+        which nothing in the module stores into or re-binds."""
+        if self.ctx is None:
+            return None
+        rel, mod, cls = self.ctx
+        owner, name = None, None
+        if isinstance(node, ast.Attribute) and isinstance(node.value,
+                                                          ast.Name):
+            classes = dict((c.name, c) for c in mod.body
+                           if isinstance(c, ast.ClassDef))
+            if node.value.id in ('self', 'cls') and cls is not None:
+                owner = cls
+            elif node.value.id in classes:
+                owner = classes[node.value.id]
+            name = node.attr
+        if owner is None or name is None:
+            return None
+        ck = (id(owner), name)
+        if ck in self._tables:
+            return self._tables[ck]
+        res = None
+        from .match import readonly_literal_table
+        binds = [x for x in owner.body if isinstance(x, ast.Assign) and any(
+            isinstance(t, ast.Name) and t.id == name for t in x.targets)]
+        if len(binds) == 1 and isinstance(binds[0].value, ast.Dict) \
+                and 0 < len(binds[0].value.keys) <= 12 and all(
+                    isinstance(k, ast.Constant)
+                    for k in binds[0].value.keys) \
+                and readonly_literal_table(mod, owner, name):
+            res = binds[0].value
+        self._tables[ck] = res
+        return res
 
     # -- following helpers that were introduced after the review ---------
     def _resolve(self, call):
@@ -2396,6 +2534,20 @@ class Summarizer(Evaluator):
                        and key(s.env[name]) != startk]
             if has_break:
                 continue
+            if len(hits) == 2 and all(len(h[1]) == 1 for h in hits) \
+                    and not changed and len(fall_states) == 2:
+                la, lb = path_lits(hits[0][0]), path_lits(hits[1][0])
+                da = [x for x in la if x not in lb]
+                db = [x for x in lb if x not in la]
+                if len(da) == 1 and len(db) == 1 and da[0] == b_not(db[0]):
+                    common = tuple(x for x in la if x in lb)
+                    elt = ifexp(da[0], hits[0][1][0][2], hits[1][1][0][2])
+                    base, it, _ = gens_key[0]
+                    cv = ('comp', 'dict' if name in dictb else 'list', elt,
+                          ((base, it, common),))
+                    newvals[name] = cv if name in dictb else strcat(prek, cv)
+                    done_app.add(name)
+                    continue
             if len(hits) == 1 and len(hits[0][1]) == 1 and not changed:
                 s, evs = hits[0]
                 conds = path_lits(s) if len(fall_states) > 1 else ()
@@ -2779,10 +2931,21 @@ class Summarizer(Evaluator):
                     results.append((s, o))
         for e, hi in edges:
             h, names = n.handlers[hi], handler_names[hi]
+            mark = len(e.trace)
             e.trace.append(('except', names, h.lineno))
             if h.name:
                 e.env[h.name] = ('exc', names)
-            results.extend(self.block(h.body, e))
+            for s2, o2 in self.block(h.body, e):
+                if o2 is not None and o2[0] == 'raise' \
+                        and o2[1] == '<reraise>' and all(
+                            ev[0] in ('except', 'cond', 'call')
+                            for ev in s2.trace[mark:]) and not any(
+                            ev[0] == 'cond' and ev[1][0] != 'const'
+                            for ev in s2.trace[mark:]):
+                    # the handler does nothing but let the exception go:
+                    # the same as no handler on this path
+                    continue
+                results.append((s2, o2))
         if n.finalbody:
             fin = []
             for s, o in results:
